@@ -1,5 +1,5 @@
 """Source of truth for MANIFEST.json (run tools/gen_manifest.py after editing)."""
-SOURCE_COMMITS = ["472f3d5", "0f80483", "29ef46c", "c52c224", "5831e59", "4bfa3bb", "c9eab00", "798134f", "ff9c3a5", "316695c"]   # all "fix:" commits (no hooks)
+SOURCE_COMMITS = ["472f3d5", "0f80483", "29ef46c", "c52c224", "5831e59", "4bfa3bb", "c9eab00", "798134f", "ff9c3a5", "316695c", "6704cd2", "92e5086", "0feff27"]   # all "fix:" commits (no hooks)
 NOTES = ("Static analysis only. Every check parses /repo's working tree with Python's ast module (and re._parser for "
          "regular-expression syntax trees) and never imports or runs pycparser. Exit 0 ok / 1 VIOLATION / 2 ANALYSIS-ERROR "
          "(fail closed). Known genuine defects are listed in known_findings.json and printed as KNOWN-FINDING lines.")
@@ -14,11 +14,13 @@ ENGINES = [
      "kind_free_text": "regex syntax trees -> ordered Thompson NFA -> leftmost-first DFA (model of re backtracking), tokeniser automaton, reference C99 lexical languages, EDA ambiguity analysis"},
     {"name": "E1 rdmodel/grammar", "path": "sa/rdmodel.py, sa/grammar.py, sa/e1.py", "serves_properties": ["C01", "C06", "C16", "C18"],
      "kind_free_text": "abstract interpreter of the recursive-descent parser over the token-stream-effect domain: per-production event automata, FIRST/FIRST2, Dyck balance, progress, memoised recogniser"},
-    {"name": "E1b wiring", "path": "sa/wiring.py, sa/wirecheck.py, sa/wiring_ref.json", "serves_properties": ["C02", "C03", "C04", "C05", "C11"],
+    {"name": "E1b wiring", "path": "sa/wiring.py, sa/wirecheck.py, sa/wiring_ref.json", "serves_properties": ["C02", "C03", "C04", "C05", "C08", "C11"],
      "kind_free_text": "flow-sensitive reaching definitions over the structured AST: provenance of every constructor argument, return and list append; compared with a reviewed reference in rename-invariant normal form"},
     {"name": "reference grammar", "path": "sa/refgrammar.py", "serves_properties": ["C01"],
      "kind_free_text": "independent EBNF transcription of ISO C99 Annex A.2 (+ documented C11), derivation-covering sentence generator"},
-    {"name": "E4 astspec", "path": "sa/astspec.py", "serves_properties": ["C14", "C15"],
+    {"name": "E3 genmodel", "path": "sa/genmodel.py", "serves_properties": ["C07", "C08"],
+     "kind_free_text": "model of the C generator: per-field emission idioms, parenthesisation predicates evaluated over finite (class, operator, configuration) domains, grammar-level lattice"},
+    {"name": "E4 astspec", "path": "sa/astspec.py", "serves_properties": ["C07", "C14", "C15"],
      "kind_free_text": "AST specification reader and node-class shape extractor"},
 ]
 CHECKS = [
@@ -67,6 +69,26 @@ CHECKS = [
      "design_ref": "DESIGN.md section 3, C06",
      "note": "Recorded arguments (ASSERT_ARGUMENTS / PARTIAL_ARGUMENTS / HETERO_ARGUMENTS in sa/props/c06.py) are trusted readings, one construct each; RecursionError is tolerated by the property; interpreter-level exceptions (MemoryError) out of scope.",
      "technique": "exception-escape / effect analysis on ast + abstract interpretation of the parser (grammar automata) + regex automata"},
+    {"id": "C07", "engine": "E0+E3+E4+E1b", "level": "other",
+     "text": "Structural clauses of the round trip, decided on the generator source: the generator's precedence map and the parser's table induce the same weak order; for every operand slot and every expression class that binds looser than "
+             "the level at which the parser parses that slot, the visitor's emission idiom parenthesises the child (finite evaluation of the parenthesisation predicates, both reduce_parentheses configurations); every class that can be an "
+             "expression statement is terminated; every node class has a visitor that reads every field the parser can fill; the declarator inversion of _generate_type has the inside-out shape; prefix operators are never fused with an operand starting with the same character.",
+     "design_ref": "DESIGN.md section 3, C07 and Appendix B",
+     "note": "Equality of two run-time ASTs and text idempotence are not executed; 9 genuine generator defects (D7, D8 family) are recorded as known findings; whitespace/indentation text is not modelled.",
+     "technique": "custom ast lint of the generator: emission-idiom extraction + finite abstract evaluation of parenthesisation predicates against the parser's grammar levels"},
+    {"id": "C08", "engine": "E1+E1b+E3", "level": "other",
+     "text": "Structural necessary conditions only: must-use dataflow over every parser production (a production result or information-carrying token bound to a variable flows into the tree on every path to every return - token conservation); "
+             "the generator's emission-completeness and grouping obligations of C07; sibling designator alternatives are distinguishable; specifier nodes are attached to one parent.",
+     "design_ref": "DESIGN.md section 3, C08",
+     "note": "That a C compiler produces identical code for the regenerated text is NOT decided (needs the compiler; no static argument in reach). 11 genuine defects (D7, D8 family, D10, D11) are recorded as known findings.",
+     "technique": "must-use (liveness-style) dataflow on the structured ast + generator emission lint + class-set disjointness of sibling alternatives"},
+    {"id": "C09", "engine": "E0+E2", "level": "other",
+     "text": "On the tokeniser function model built from the regex syntax trees and the fixed-token table: maximal munch for ALL strings (product of the leftmost-first DFA with the subset DFA of the union of all rules and punctuators), "
+             "every C99 punctuator lexes to its own token, bucket discipline, classification order keyword -> typedef -> ID, symbolic evaluation of the cursor code across newlines (line start / line number), progress of every scanning loop, "
+             "and sibling agreement of the hand-written directive scanners.",
+     "design_ref": "DESIGN.md section 3, C09",
+     "note": "Python's re is modelled by an ordered-NFA leftmost-first automaton (cross-checked during development, trusted at check time); losslessness of whitespace/comments is by the property's own exclusion of blanks.",
+     "technique": "regex syntax trees -> automata (leftmost-first DFA vs. longest-match subset DFA product) + symbolic evaluation of the lexer's cursor arithmetic"},
     {"id": "C10", "engine": "E0+E2", "level": "other",
      "text": "Exact language comparison for strings of every length: the tokeniser function (leftmost-first model of the master regex composed with the fixed-token scan) is compared by automata "
              "products with reference C99 6.4.4/6.4.5 languages (lower bound, per named part) and the documented lenient languages (upper bound); malformed-literal languages must reach ERROR rules; "
